@@ -587,6 +587,38 @@ fn sn(i: u8, a: usize, o: usize) -> SigNode {
     set_sig(i as usize, a, o, 0, 0);
     SigNode { sig: Signature::new(a, o), node: Node(i) }
 }
+/// memo F xs, run twice on equal arguments: the first run executes F on exactly the top `a` values and leaves its
+/// `o` results; the second run does not execute F, consumes exactly the same `a` values and leaves the same `o`
+/// results; nothing beneath is touched by either.
+pub fn ck_memo(len: usize, a: usize, o: usize) {
+    let (mut env, s, _u) = mk(len, 0);
+    let r1 = rt_arm_memo(vec![sn(0, a, o)], &mut env);
+    if len < a {
+        assert!(r1.is_err());
+        return;
+    }
+    assert!(r1.is_ok());
+    assert!(env.nlog == 1);
+    assert!(same(&env.log_stack[0], &s));
+    assert!(env.rt.stack.len() == len - a + o);
+    assert!(same(&env.rt.stack[..len - a], &s[..len - a]));
+    let outs = top(&env.rt.stack, o);
+    // second run on the same interpreter: the same arguments again, above what the first run left
+    let h = env.rt.stack.len();
+    let mut i = 0;
+    while i < a {
+        env.rt.stack.push(s[len - a + i]);
+        i += 1;
+    }
+    env.nlog = 0;
+    let r2 = rt_arm_memo(vec![sn(0, a, o)], &mut env);
+    assert!(r2.is_ok());
+    assert!(env.nlog == 0);
+    assert!(env.rt.stack.len() == h + o);
+    assert!(same(&env.rt.stack[..len - a], &s[..len - a]));
+    assert!(same(&env.rt.stack[h - o..h], &outs));
+    assert!(same(&env.rt.stack[h..], &outs));
+}
 /// fork F G H xs: every function sees the same arguments (its own top a_i of them); functions run last-first,
 /// so the first function's results end on top; nothing beneath the max a_i arguments is touched
 pub fn ck_fork(len: usize, sigs: [(usize, usize); 3], n: usize) {
